@@ -375,7 +375,9 @@ def run(prog, ctx):
     ctx.rule("R03.3", "calc_phase_permutation == (-1)^(inversions among odd entries), exhaustive for length <= 4")
     from rules.c09_typestate import check_mirrors
 
-    check_convention(prog, ctx)
-    check_permutation_use(prog, ctx)
-    check_mirrors(prog, ctx)  # transpose: the sign is the Koszul sign of the very permutation applied to the blocks
+    tr = prog.func("symmray.fermionic_core:FermionicArray.transpose")
+    td = prog.func("symmray.fermionic_core:tensordot_fermionic")
+    ctx.guarded("R03.1", td, check_convention, prog, ctx)
+    ctx.guarded("R03.2", td, check_permutation_use, prog, ctx)
+    ctx.guarded("R09.2", tr, check_mirrors, prog, ctx)  # transpose: the sign is the Koszul sign of the very permutation applied to the blocks
     check_koszul(prog, ctx)
